@@ -303,7 +303,8 @@ static cat_return_state ev_test(const struct cat_command *cmd, uint8_t *data, si
         return ((cmd - cmds) - 1 == 1) ? CAT_RETURN_STATE_HOLD_EXIT_OK : CAT_RETURN_STATE_DATA_OK;
 }
 static cat_return_state hold_run(const struct cat_command *cmd) { (void)cmd; inside_point(3); return CAT_RETURN_STATE_HOLD; }
-static cat_return_state plain_run(const struct cat_command *cmd) { (void)cmd; inside_point(4); return CAT_RETURN_STATE_OK; }
+/* variant 3: the plain command answers with the command list (several units of the command machine while events are in flight) */
+static cat_return_state plain_run(const struct cat_command *cmd) { (void)cmd; inside_point(4); return variant == 3 ? CAT_RETURN_STATE_PRINT_CMD_LIST_OK : CAT_RETURN_STATE_OK; }
 
 static struct cat_io_interface io = {.write = io_write, .read = io_read};
 static struct cat_command_group grp; static struct cat_command_group *grps[1];
@@ -386,7 +387,7 @@ static void run_once(void)
         set_prot(1);
         memset(alias, 0, REGION);
         memset(accepted, 0, sizeof accepted); memset(full, 0, sizeof full); memset(delivered, 0, sizeof delivered); memset(parts_seen, 0, sizeof parts_seen);
-        out_n = 0; in_p = variant == 1 ? INPUT1 : variant == 2 ? INPUT2 : INPUT; in_pos = 0; in_n = (int)strlen(in_p); write_attempts = 0; hold_released_ok = 0;
+        out_n = 0; in_p = variant == 1 ? INPUT1 : variant == 2 ? INPUT2 : variant == 3 ? "ATP\n" : INPUT; in_pos = 0; in_n = (int)strlen(in_p); write_attempts = 0; hold_released_ok = 0;
         npts = 0; preemptions = 0; prune_from = -1; cur = -1; lock_owner = -1; progress_epoch = 0; deadlock = 0; aborted = 0;
         nthreads = 1 + n_prod;
         /* descriptor: +H holds, +P answers, one event command per producer */
@@ -434,7 +435,7 @@ static void run_once(void)
                                 char pay[64]; int n = j - i - 1;
                                 if (n >= (int)sizeof pay) n = (int)sizeof pay - 1;
                                 memcpy(pay, out + i + 1, (size_t)n); pay[n] = 0;
-                                ok = !strcmp(pay, "OK") || !strcmp(pay, "ERROR");
+                                ok = !strcmp(pay, "OK") || !strcmp(pay, "ERROR") || !strcmp(pay, "ATH") || !strcmp(pay, "ATP");
                                 for (int p = 1; p <= n_prod && !ok; p++) {
                                         char a[32], b[32];
                                         snprintf(a, sizeof a, "+u%d=%d", p, 10 + p);
